@@ -256,6 +256,9 @@ func (f *frame) evalContractMode(cl *Clause, heap Heap, extra map[string]SV, old
 // with a single definition (from debug references).
 func (f *frame) resolveName(name string) (SV, bool) {
 	// name#k: the k-th variable of that name in declaration order (shadowing)
+	if i := strings.Index(name, "#"); i > 0 && (name[i+1:] == "init" || name[i+1:] == "upd") {
+		return f.resolveVersion(name[:i], name[i+1:])
+	}
 	if i := strings.Index(name, "#"); i > 0 {
 		var k int
 		fmt.Sscanf(name[i+1:], "%d", &k)
@@ -588,7 +591,7 @@ func (f *frame) throwObligations() {
 	}
 }
 
-var nthRe = regexp.MustCompile(`([A-Za-z_][A-Za-z0-9_]*)#([0-9]+)`)
+var nthRe = regexp.MustCompile(`([A-Za-z_][A-Za-z0-9_]*)#([0-9]+|init|upd)`)
 
 // parseExprText parses a contract expression; "name#k" (k-th variable of that name) is
 // passed through go/parser as the identifier name__nthk.
@@ -692,6 +695,73 @@ func (f *frame) frameObligation() {
 	f.curPC = "true"
 	f.oblige("frame.modifies", "", cond, text, token.NoPos)
 	f.curPC = save
+}
+
+// resolveVersion: of a variable that is assigned in a loop, name#init is the value it is
+// declared with (the first definition in source order) and name#upd the value assigned
+// inside the loop (the unique non-phi definition in a loop body).
+func (f *frame) resolveVersion(name, which string) (SV, bool) {
+	type def struct {
+		v   ssa.Value
+		pos token.Pos
+	}
+	var defs []def
+	seen := map[ssa.Value]bool{}
+	for _, b := range f.fn.Blocks {
+		for _, in := range b.Instrs {
+			d, ok := in.(*ssa.DebugRef)
+			if !ok || d.IsAddr {
+				continue
+			}
+			id, ok := d.Expr.(*ast.Ident)
+			if !ok || id.Name != name {
+				continue
+			}
+			if _, isConst := d.X.(*ssa.Const); isConst || seen[d.X] {
+				continue
+			}
+			seen[d.X] = true
+			defs = append(defs, def{d.X, d.Pos()})
+		}
+	}
+	var pick ssa.Value
+	switch which {
+	case "init":
+		for _, d := range defs {
+			if _, isPhi := d.v.(*ssa.Phi); isPhi {
+				continue
+			}
+			if pick == nil || d.v.Pos() < pick.Pos() {
+				pick = d.v
+			}
+		}
+	case "upd":
+		n := 0
+		for _, d := range defs {
+			if _, isPhi := d.v.(*ssa.Phi); isPhi {
+				continue
+			}
+			in, ok := d.v.(ssa.Instruction)
+			if !ok {
+				continue
+			}
+			for _, li := range f.loopHeads {
+				if li.blocks[in.Block().Index] {
+					pick = d.v
+					n++
+					break
+				}
+			}
+		}
+		if n != 1 {
+			cfail("%s#upd: %d assignments inside loops in %s", name, n, f.fn.Name())
+		}
+	}
+	if pick == nil {
+		cfail("%s#%s: no such definition in %s", name, which, f.fn.Name())
+	}
+	sv, ok := f.vals[pick]
+	return sv, ok
 }
 
 // resolveNth resolves name#k through go/ssa's debug references: the k-th distinct
